@@ -2,7 +2,7 @@
    minidump/src/minidump.rs by translate/c14_reason.py (Gen/C14Reason.v), for every membership function; and, on the
    membership tables regenerated from minidump-common/src/errors, the documented refinements of the Windows codes hold. *)
 From Coq Require Import Lia.
-From RM Require Import C14.Model Gen.C14Reason.
+From RM Require Import C14.Model Gen.C14Reason Gen.C14Process.
 Open Scope Z_scope.
 
 Ltac split_ifs :=
@@ -120,3 +120,72 @@ Qed.
 Lemma refined_signals_known :
   forallb (gen_lk EN_LINUX) [4; 5; 7; 8; 11; 31] = true /\ forallb (gen_lk EN_MAC) [1; 2; 3; 5; 6; 11; 12] = true.
 Proof. vm_compute. split; reflexivity. Qed.
+
+(* ------------------------------------------------------------------ platform tables, flag bits *)
+Lemma os_of_platform_is_source id : os_of_platform id = gen_os_of_platform id.
+Proof. reflexivity. Qed.
+Lemma cpu_of_arch_is_source a : cpu_of_arch a = gen_cpu_of_arch a.
+Proof. reflexivity. Qed.
+Lemma pointer_width_is_source c : pointer_width c = gen_pointer_width c.
+Proof. reflexivity. Qed.
+Lemma arch_has_context_is_source a : arch_has_context a = gen_arch_has_context a.
+Proof.
+  unfold arch_has_context, gen_arch_has_context. cbn [existsb]. rewrite orb_false_r, !orb_assoc. reflexivity.
+Qed.
+Lemma flag_bits_are_source d :
+  dump_tid d = match d_bp d with
+               | Some b => if Z.testbit (b_validity b) GEN_BP_BIT_dump_thread_id then Some (b_dump_tid b) else None
+               | None => None end /\
+  req_tid d = match d_bp d with
+              | Some b => if Z.testbit (b_validity b) GEN_BP_BIT_requesting_thread_id then Some (b_req_tid b) else None
+              | None => None end /\
+  process_id d = match d_misc d with
+                 | Some m => if Z.testbit (mi_flags1 m) GEN_MISC_BIT_process_id then Some (mi_pid m) else None
+                 | None => option_map status_pid (d_status d) end /\
+  process_create_time d = match d_misc d with
+                          | Some m => if Z.testbit (mi_flags1 m) GEN_MISC_BIT_process_create_time then Some (mi_ctime m) else None
+                          | None => None end.
+Proof. repeat split; reflexivity. Qed.
+
+(* ------------------------------------------------------------------ into_process_state (Gen/C14Process.v) *)
+Lemma optz_eqb_some a x : optz_eqb a (Some x) = oz_eqb a x.
+Proof. destruct a; reflexivity. Qed.
+Lemma target_tid_or d : or_optz (crash_tid d) (req_tid d) = target_tid d.
+Proof. unfold or_optz, crash_tid, target_tid. destruct (d_exc d); reflexivity. Qed.
+
+Lemma one_thread_is_source d i t req : one_thread d i t req = gen_one_thread d i t req.
+Proof.
+  unfold one_thread, gen_one_thread. rewrite !optz_eqb_some, target_tid_or.
+  destruct (oz_eqb (dump_tid d) (t_id t)); [reflexivity|].
+  destruct (oz_eqb (target_tid d) (t_id t)).
+  - destruct (or_ctx (tag_ctx FromException (exc_ctx d)) (tag_ctx FromThread (t_ctx t))); reflexivity.
+  - destruct (tag_ctx FromThread (t_ctx t)); reflexivity.
+Qed.
+
+Lemma walk_threads_is_source d : forall ts i req,
+  walk_threads d i ts req =
+  (fix go (i : nat) (ts : list thread) (req : option nat) : list callstack * option nat :=
+     match ts with
+     | [] => ([], req)
+     | t :: rest => let '(cs, req1) := gen_one_thread d i t req in
+                    let '(css, req2) := go (S i) rest req1 in (cs :: css, req2)
+     end) i ts req.
+Proof.
+  induction ts as [|t rest IH]; intros i req; [reflexivity|].
+  cbn [walk_threads]. rewrite one_thread_is_source. destruct (gen_one_thread d i t req) as [cs req1].
+  rewrite IH. reflexivity.
+Qed.
+
+Lemma pid_time_is_source d :
+  process_id d = gen_process_id d /\ process_create_time d = gen_process_create_time d.
+Proof. unfold process_id, process_create_time, gen_process_id, gen_process_create_time. destruct (d_misc d); split; reflexivity. Qed.
+
+Lemma choose_stack_is_source mems t f : choose_stack mems t f = gen_choose_stack mems t f.
+Proof.
+  unfold choose_stack, gen_choose_stack, or_optz, opt_and_then, get_u64.
+  destruct f as [[s c]|]; cbn [option_map snd]; [|reflexivity].
+  destruct (thread_stack mems t) as [k|]; cbn [opt_is_some negb].
+  - destruct (readable_u64 mems k (c_sp c)); cbn [opt_is_some negb]; [reflexivity|].
+    destruct (mem_at mems (c_sp c)); reflexivity.
+  - destruct (mem_at mems (c_sp c)); reflexivity.
+Qed.
